@@ -161,16 +161,26 @@ func (w *World) buildRequest(ctx context.Context, rq *Rq) (*http.Request, error)
 	if ccLines == nil {
 		ccLines = w.con.renderCC(w.con.reqDirectives(rq), rq.Sp)
 	}
+	if rq.RawKeys == 3 && len(ccLines) > 0 {
+		// the field under two keys of the map at once: both go out on the wire and together they are one list
+		req.Header.Set("Cache-Control", "no-transform")
+	}
 	for _, l := range ccLines {
-		if rq.RawKeys == 2 {
+		if rq.RawKeys >= 2 {
 			req.Header["cache-control"] = append(req.Header["cache-control"], l)
 		} else {
 			req.Header.Add("Cache-Control", l)
 		}
 	}
 	if rq.Range == 1 {
-		// any Range field makes it a range request, whatever the unit and its spelling
-		req.Header.Set("Range", []string{"bytes=0-3", "Bytes=2-5", "BYTES=2-5", "items=2-5", "bytes=-4", "bytes=1-"}[w.rnd.Intn(6)])
+		// any Range field makes it a range request, whatever the unit and its spelling - and whatever the letter case of its
+		// key in the header map
+		v := []string{"bytes=0-3", "Bytes=2-5", "BYTES=2-5", "items=2-5", "bytes=-4", "bytes=1-"}[w.rnd.Intn(6)]
+		if rq.RawKeys >= 1 {
+			req.Header["range"] = []string{v}
+		} else {
+			req.Header.Set("Range", v)
+		}
 	}
 	for f, cl := range rq.Sel {
 		if cl > 0 && f < len(SelFields) {
